@@ -25,6 +25,7 @@ func init() {
 			{"C14.protocol", "casync protocol client: MISSING->ChunkMissing, CHUNK->verified, else error", 3, c14Protocol},
 			{"C14.server-loop", "protocol server ends a session with nil only on GOODBYE/cancel; MISSING continues", 2, c14ServerLoop},
 			{"C14.has-missing", "backend HasChunk reports a missing chunk as (false, nil)", 5, c14HasMissing},
+			{"C14.raw-storage", "a chunk's stored bytes are passed on unconverted only where the converters match", 1, func(c *Ctx) { c.rawStorageGuarded() }},
 			{"C14.converters", "converter layers forward on store, backward on read", 3, c14Converters},
 		},
 	})
@@ -876,9 +877,14 @@ func c14Converters(c *Ctx) {
 
 // c14RetryBody: IssueRetryableHttpRequest calls getReader() once per attempt; the function it is
 // given must build a new reader each time, otherwise a retry sends the remainder of a consumed body.
-func c14RetryBody(c *Ctx) {
+func c14RetryBody(c *Ctx) { retryBodyFresh(c, func(string) bool { return true }) }
+
+func retryBodyFresh(c *Ctx, want func(fnKey string) bool) {
 	n := 0
 	for _, fn := range c.Funcs {
+		if !want(fnKey(fn)) {
+			continue
+		}
 		for _, call := range calls(fn, named("(*desync.RemoteHTTPBase).StoreObject", "(*desync.RemoteHTTPBase).IssueRetryableHttpRequest")) {
 			a := call.Common().Args
 			g := a[len(a)-1]
